@@ -294,6 +294,9 @@ class ExplorerScriptSsbCompiler:
     ) -> dict[str, ExplorerScriptMacro]:
         """Updates path information of all of the macros. See the field descriptions for more details"""
         for macro in macros.values():
+            if basefile_path is not None and macro.included__relative_path is not None:
+                # The sub-file imported this macro from yet another file, it already knows where it is from.
+                continue
             macro.included__absolute_path = subfile_path
             if basefile_path is not None:
                 macro.included__relative_path = os.path.relpath(subfile_path, os.path.dirname(basefile_path))
